@@ -4,8 +4,8 @@ Dimensions of physical quantities
 
 """
 
+import inspect
 from functools import wraps
-from itertools import chain
 
 from sympy import Rational, Symbol, sympify
 
@@ -263,7 +263,9 @@ def accepts(**arg_units):
             Decorated function.
 
         """
-        names_of_args = f.__code__.co_varnames
+        # the signature (not the code object) says which argument a value is bound to:
+        # it follows ``__wrapped__`` (stacked decorators) and knows ``*args``/keyword-only
+        signature = inspect.signature(f)
 
         @wraps(f)
         def new_f(*args, **kwargs):
@@ -277,13 +279,26 @@ def accepts(**arg_units):
                 If the units do not match.
 
             """
-            for arg_name, arg_value in chain(zip(names_of_args, args), kwargs.items()):
-                if arg_name in arg_units:  # function argument needs to be checked
-                    dimension = arg_units[arg_name]
-                    if not _has_dimensions(arg_value, dimension):
-                        raise TypeError(
-                            f"arg '{arg_name}={arg_value}' does not match {dimension}"
-                        )
+            try:
+                bound = signature.bind_partial(*args, **kwargs).arguments
+            except TypeError:
+                # ill-formed call: let the function itself report it
+                return f(*args, **kwargs)
+            for param_name, bound_value in bound.items():
+                kind = signature.parameters[param_name].kind
+                if kind is inspect.Parameter.VAR_POSITIONAL:
+                    continue
+                if kind is inspect.Parameter.VAR_KEYWORD:
+                    named_values = bound_value.items()
+                else:
+                    named_values = ((param_name, bound_value),)
+                for arg_name, arg_value in named_values:
+                    if arg_name in arg_units:  # function argument needs to be checked
+                        dimension = arg_units[arg_name]
+                        if not _has_dimensions(arg_value, dimension):
+                            raise TypeError(
+                                f"arg '{arg_name}={arg_value}' does not match {dimension}"
+                            )
             return f(*args, **kwargs)
 
         return new_f
